@@ -227,6 +227,10 @@ class FS:
         if path not in self.files:
             raise _enoent(path)
         self.atime[path] = self._tick()
+        if getattr(self, "raw_reads", False) and "b" in mode:
+            # what the builtin open() returns for 'rb': a BufferedReader over a raw file (needed where joblib
+            # distinguishes real files from in-memory buffers, i.e. for mmap_mode)
+            return io.BufferedReader(FakeRaw(self.files[path], path))
         b = RFile(self.files[path])
         b.name = path
         if "b" in mode:
@@ -268,6 +272,30 @@ class FS:
 
 class RFile(io.BytesIO):
     pass
+
+
+class FakeRaw(io.RawIOBase):
+    """Stand-in for io.FileIO opened for reading on a model file."""
+
+    def __init__(self, data, name):
+        super().__init__()
+        self._b = io.BytesIO(data)
+        self.name = name
+
+    def readable(self):
+        return True
+
+    def seekable(self):
+        return True
+
+    def readinto(self, b):
+        return self._b.readinto(b)
+
+    def seek(self, pos, whence=0):
+        return self._b.seek(pos, whence)
+
+    def tell(self):
+        return self._b.tell()
 
 
 class WFile(io.BytesIO):
